@@ -22,9 +22,9 @@ PROPS = {
         "level_text": "seeded exploration of write histories interleaved with token-carrying readers; the feed, latest-only feed, end-token behaviour and every reader page are compared with the model's ordered version list, also across clean restarts.",
         "level_note": "trusts badger and the Go runtime; page sizes are not constrained (only the concatenation of pages is, as the property states)",
         "technique": SIM + "; refinement against ordered-log reference model",
-        "profiles": [{"name": "C02", "quick": 1200, "thorough": 40000}],
+        "profiles": [{"name": "C02", "quick": 1000, "thorough": 30000}, {"name": "C02c", "quick": 1000, "thorough": 30000}],
         "chunk": 25, "timeout": 180,
-        "rule": "C02 profile: write histories (in-batch repeats, identical rewrites) interleaved with 1-3 token-carrying readers (full and latest-only, limits 0,1,2,3,5), clean restarts; after every write the full feed, latest-only feed, end-token behaviour and pagings with limits 1,2,3 are compared with the model's version list; every reader page is compared with the model slice at its position. non-trivial = at least 2 committed writes; distinct = distinct normalised event trace hash",
+        "rule": "C02 profile: write histories (in-batch repeats, identical rewrites) interleaved with 1-3 token-carrying readers (full and latest-only, limits 0,1,2,3,5), clean restarts; after every write the full feed, latest-only feed, end-token behaviour and pagings with limits 1,2,3 are compared with the model's version list; every reader page is compared with the model slice at its position. C02c profile: 2-3 concurrent writer tasks and 1-2 token-carrying reader tasks under the cooperative scheduler; every page is checked against the feed formed by the commits that precede the read (commit order observed at the afterDataCommit hooks). non-trivial = at least 2 committed writes; distinct = distinct normalised event trace hash",
         "real": REAL_STORE, "stub": STUB_STORE,
         "assumptions": ["clock advances >= 1 ns between operations"],
     },
@@ -49,6 +49,17 @@ PROPS = {
         "rule": "C05 profile: generated task sets (writers, readers, manager) with a PRNG-drawn schedule (preemption probability swarm-varied 2-50%) recorded into the scenario; non-trivial = at least 2 commits and at least 1 preemption between tasks; distinct = distinct hash of the scheduler event trace (task, hook point, lock)",
         "real": REAL_STORE, "stub": STUB_STORE + ["goroutine scheduling at hook points (cooperative scheduler)"],
         "assumptions": ["context switches happen only at verif hook points", "commit order = order of the afterDataCommit hook events"],
+    },
+    "C04": {
+        "level": "fault_enumeration",
+        "level_text": "for every generated write history (batches, multi-dataset transactions, transactions through a contextual store as JS transforms issue them) the crash space is enumerated: a directory snapshot at armed (hook point, hit) pairs or at every hook arrival, WAL-prefix crashes at operation boundaries, boundary-1 and interior byte offsets, and injected id/data commit errors. Every crash state is reopened and must equal the acknowledged history or that plus the whole in-flight operation, pass a raw scan of all key families for cross-consistency, and accept new writes with fresh change positions and internal ids.",
+        "level_note": "crash = the bytes written to the store files at that instant (process death, not power loss; badger runs with SyncWrites=false as shipped); WAL-prefix crashes assume no memtable flush during the run (checked, else skipped and counted); I/O errors inside badger cannot be injected (mmap)",
+        "technique": SIM + "; crash-point and WAL-byte fault enumeration per history, differential against reference model, raw key-family scan",
+        "profiles": [{"name": "C04", "quick": 260, "thorough": 8000}],
+        "chunk": 4, "timeout": 300,
+        "rule": "C04 profile: histories of 2-7 write ops; per history up to 14 named-point snapshots (armed (point,hit) pairs, or every arrival in 15% of runs) plus WAL cuts (boundary, boundary-1, 0-2 interior offsets per op) plus 0-1 injected commit error. non-trivial = at least one crash state reopened and verified and at least one commit; distinct = distinct normalised event trace hash; crash states verified are counted in stats_total.crash_states_verified",
+        "real": REAL_STORE, "stub": STUB_STORE + ["process death (directory snapshot / WAL tail zeroing instead of SIGKILL)"],
+        "assumptions": ["process crash model: what was written to the mmap'd files survives", "no badger memtable flush within a run (verified per run)"],
     },
 }
 
